@@ -56,6 +56,13 @@ func Bubble(t *testing.T, f func()) (res RunResult) {
 		if Journal != nil {
 			Journal(dump)
 		}
+		if definitive && clockStalledIn(dump) {
+			// A goroutine queueing for a mutex is not "durably blocked", so the bubble's clock stands still while it
+			// waits - and with it every sleeper and timer of the case. In real time those would fire and the mutex
+			// might well be released: the case shows nothing about the library, the bubble simply cannot run it.
+			definitive = false
+			fmt.Fprintf(os.Stdout, "\nVERIF-CLOCK-STALL: a goroutine queues for a mutex while others sleep: virtual time cannot pass; no verdict\n")
+		}
 		if definitive {
 			// two identical dumps one second apart, every bubble goroutine parked
 			// on a channel, select or mutex: a deadlock, not a slow machine
@@ -158,6 +165,51 @@ func StackSites(stacks []string) []string {
 		out = append(out, site)
 	}
 	return out
+}
+
+// clockStalledIn reports whether, in the goroutine dump, some bubble goroutine waits non-durably (for a sync.Mutex or
+// sync.RWMutex) while another one of the same bubble sleeps on the virtual clock.
+func clockStalledIn(dump string) bool {
+	waiter, sleeper := map[string]bool{}, map[string]bool{}
+	for _, b := range strings.Split(dump, "\n\n") {
+		h := hdrRe.FindStringSubmatch(b)
+		if h == nil {
+			continue
+		}
+		x := bubbleRe.FindStringSubmatch(h[2])
+		if x == nil {
+			continue
+		}
+		st := h[2]
+		switch {
+		case strings.HasPrefix(st, "sync.Mutex.Lock"), strings.HasPrefix(st, "sync.RWMutex"), strings.HasPrefix(st, "semacquire"):
+			waiter[x[1]] = true
+		case strings.HasPrefix(st, "sleep"):
+			sleeper[x[1]] = true
+		}
+	}
+	for id := range waiter {
+		if sleeper[id] {
+			return true
+		}
+	}
+	return false
+}
+
+// MutexWaiters reports whether some other goroutine of the caller's bubble is queueing for a mutex right now (call it
+// after Settle). While that lasts, virtual time cannot pass: a harness that wants to let time go by must not sleep then.
+func MutexWaiters() bool {
+	for _, b := range LiveInBubble() {
+		h := hdrRe.FindStringSubmatch(b)
+		if h == nil {
+			continue
+		}
+		st := h[2]
+		if strings.HasPrefix(st, "sync.Mutex.Lock") || strings.HasPrefix(st, "sync.RWMutex") || strings.HasPrefix(st, "semacquire") {
+			return true
+		}
+	}
+	return false
 }
 
 // bubbleSignature summarises the goroutines that belong to synctest bubbles:
